@@ -56,7 +56,18 @@ def is_comment(b):
 
 def o_sort(inp):
     """inp: {"blocks": [universe index...], "order": [type names] | None, "preserve": bool}"""
-    blocks = [make_block(u, i) for i, u in enumerate(inp["blocks"])]
+    # the start line doubles as the unique tag of a block; it is not monotone in the input order (a library filled by
+    # two parses, or by hand): "original relative order" is the order in the library, not the order of line numbers
+    n_in = len(inp["blocks"])
+    mode = sum(inp["blocks"]) % 3
+    if mode == 1:
+        lines = [n_in - 1 - i for i in range(n_in)]
+    elif mode == 2:
+        m = next(q for q in itertools.count(max(n_in, 2)) if q > 7 and all(q % d for d in range(2, int(q ** 0.5) + 1)))
+        lines = [(i * 7 + 3) % m for i in range(n_in)]
+    else:
+        lines = list(range(n_in))
+    blocks = [make_block(u, lines[i]) for i, u in enumerate(inp["blocks"])]
     lib = Library(blocks)  # equal keys get wrapped into DuplicateBlockKeyBlock here
     inblocks = list(lib.blocks)
     order_names = inp["order"]
